@@ -163,6 +163,21 @@ impl QueryNode {
     pub async fn query_for_tenant(&self, sql: &str, tenant_id: &str) -> Result<Vec<RecordBatch>> {
         let started = Instant::now();
         let result = async {
+            // A node that has not seen a chunk yet plans against a placeholder table with the
+            // default schema. A statement written for the stored data (integer bounds or
+            // arithmetic on an Int64 timestamp column, a column the default schema lacks) would
+            // fail there - in the pruning pre-pass, or against the empty table of an empty
+            // selection. Let the engine see one stored chunk first.
+            if !self.engine.metrics_schema_known() {
+                if let Some(any) = self.metadata.list_chunks().await?.first() {
+                    // best effort: on failure the statement is planned against the default schema
+                    let _ = self
+                        .engine
+                        .register_metrics_table_for_chunks(&[any.chunk_path.clone()])
+                        .await;
+                }
+            }
+
             // Parse query for pruning inputs. If the logical `metrics` table has not
             // been registered yet, bootstrap with all known chunks and retry parsing.
             let (time_range, predicates) = match (
@@ -212,20 +227,6 @@ impl QueryNode {
                 })
                 .collect();
             let bytes_scanned = chunks.iter().map(|chunk| chunk.size_bytes).sum::<u64>();
-
-            // Nothing selected on a node that has not seen a chunk yet: the empty table would
-            // carry the default schema, and a statement written for the stored data (e.g. integer
-            // bounds on an Int64 timestamp column) would fail type coercion instead of returning
-            // the empty answer. Let the engine see one stored chunk first.
-            if chunks.is_empty() && !self.engine.metrics_schema_known() {
-                if let Some(any) = self.metadata.list_chunks().await?.first() {
-                    // best effort: on failure the statement is planned against the default schema
-                    let _ = self
-                        .engine
-                        .register_metrics_table_for_chunks(&[any.chunk_path.clone()])
-                        .await;
-                }
-            }
 
             // Pin chunks to prevent GC during query execution (RAII guard unpins on drop)
             let chunk_paths: Vec<String> = chunks.iter().map(|c| c.chunk_path.clone()).collect();
